@@ -26,7 +26,9 @@ PROP = dict(
                  "synchronous WARC writing: the writer acknowledges a record only once it is completely in the file (C02)"],
     level_text="Theorems over all histories with crashes after any prefix, graceful stops and restarts: acknowledged captures are always among "
                "the complete records, rows are never lost except by deletion of a finished seed, the complete records only grow, and after a "
-               "restart every remaining row is FRESH; the pre-fix code is refuted by witnesses. Tied to the code by real crawls on the local "
+               "restart every remaining row is FRESH; the pre-fix code is refuted by witnesses. A second model with the durable seen-store "
+               "and the per-seed fetch (refining the first) proves 'deleted implies own URL captured or failed for good' seed by seed, exactly "
+               "up to the seen-write-ahead finding, and is replayed on every observed history. Tied to the code by real crawls on the local "
                "queue that are SIGKILLed at every instrumented point x occurrence / at random times / stopped gracefully, whose lq.db and WARC "
                "files are inspected on disk and which are then restarted on the same job directory.",
 )
